@@ -130,7 +130,23 @@ class BuiltUnit:
     pass
 
 
-def build_unit(unit_dir, out_path, mutate=None, neg_control=False, bodies=None, drop_clauses=None, extra_items=None, unfold=None):
+SCAFFOLD_KINDS = ("loop_invariant", "loop_ensures", "loop_decreases", "loop_bind", "loopstart", "loopend", "start",
+                  "requires", "closure_ptype", "closure_sig", "attr", "result")
+
+
+def _is_scaffold(c):
+    """a clause other obligations of the same function may rest on: loop invariants, ghost declarations, closure
+    annotations, preconditions — and every untagged helper. (Tagged before/after/tail/ensures clauses are obligations.)"""
+    return c.kind in SCAFFOLD_KINDS or not c.tags
+
+
+def _rename_in(text, mapping):
+    for old, new in mapping.items():
+        text = re.sub(r"(?<![A-Za-z0-9_])%s(?![A-Za-z0-9_])" % re.escape(old), new, text)
+    return text
+
+
+def build_unit(unit_dir, out_path, mutate=None, neg_control=False, bodies=None, drop_clauses=None, extra_items=None, unfold=None, renames=None):
     """Generate the Verus file for a unit. `mutate` = optional function (fnpath, text) -> text applied
     to the *extracted slice in memory* (teeth); `neg_control` appends `ensures false` everywhere.
     Returns BuiltUnit with maps for diagnostics."""
@@ -273,6 +289,13 @@ def build_unit(unit_dir, out_path, mutate=None, neg_control=False, bodies=None, 
         if mutate is not None and p.is_fn and not p.stub:
             text = mutate(p.fnpath, text)
             p.mutated = text != p.orig
+        if renames and p.fnpath in renames and not p.stub:
+            mp_ = renames[p.fnpath]
+            o2 = dict(p.opts)
+            for key in ("abstract_lets", "r13_idents", "extend_vec_idents", "r22_map_sources", "for_map_idents"):
+                if o2.get(key):
+                    o2[key] = [mp_.get(x, x) for x in o2[key]]
+            p.opts = o2
         try:
             t1, steps, log = apply_rewrites(text, p.opts["rewrites"], p.opts)
         except (Unsupported, rl.ScanError) as e:
@@ -346,6 +369,20 @@ def build_unit(unit_dir, out_path, mutate=None, neg_control=False, bodies=None, 
             ext.full_id = None
             sfs.clauses = [ext] + sfs.clauses
             fs = sfs
+        if fs is not None and renames and p.fnpath in renames and not p.stub:
+            # alpha-renaming repair: the function differs from its pinned text only by a consistent renaming of local
+            # identifiers, so the same renaming is applied to the clause texts and anchors of this function
+            mp = renames[p.fnpath]
+            fs = copy.copy(fs)
+            ncl = []
+            for c in fs.clauses:
+                c2 = copy.copy(c)
+                c2.text = _rename_in(c.text, mp)
+                if c.args.get("tok"):
+                    c2.args = dict(c.args, tok=_rename_in(c.args["tok"], mp))
+                ncl.append(c2)
+            fs.clauses = ncl
+            p.renamed = dict(mp)
         if fs is not None and drop_clauses:
             kept = [c for c in fs.clauses if c.full_id not in drop_clauses]
             if len(kept) != len(fs.clauses):
@@ -353,6 +390,7 @@ def build_unit(unit_dir, out_path, mutate=None, neg_control=False, bodies=None, 
                 fs = copy.copy(fs)
                 fs.clauses = kept
                 p.dropped_clauses = [(c.full_id, c.tags) for c in dropped]
+                p.scaffold_lost = getattr(p, 'scaffold_lost', []) + [{'id': c.full_id or c.cid, 'kind': c.kind, 'text': c.text} for c in dropped if _is_scaffold(c)]
         if fs is not None:
             used_specs.add(fs.path)
             if not p.stub:
@@ -367,6 +405,8 @@ def build_unit(unit_dir, out_path, mutate=None, neg_control=False, bodies=None, 
                 if p.kind in ("fn", "trait_fn", "stub"):
                     eds, sh2 = splice_fn(t1, fs)
                     p.lost_clauses = [(c.full_id, c.tags, msg) for (c, msg) in getattr(sh2, "lost", [])]
+                    p.anchor_lost = [c.full_id or c.cid for (c, msg) in getattr(sh2, 'lost', [])]
+                    p.scaffold_lost = getattr(p, 'scaffold_lost', []) + [{'id': c.full_id or c.cid, 'kind': c.kind, 'text': c.text} for (c, msg) in getattr(sh2, 'lost', []) if _is_scaffold(c)]
                 else:
                     for c in fs.clauses:
                         if c.kind == "attr":
